@@ -397,6 +397,8 @@ def r11_formatting_delegates(ctx, P, R="C09.R11"):
         deleg = [f for f in calls if f.get("path") == f"core::fmt::{tr}::fmt" and (f.get("res") or {}).get("path") == f"<str as core::fmt::{tr}>::fmt"]
         other = [f.get("path") for f in calls if f not in deleg and f.get("name") not in ("as_str", "deref")]
         ok = len(deleg) == 1 and not other
+        if tr == "Display" and not deleg and other == ["core::fmt::Formatter::<'a>::pad"]:
+            ok = True   # `f.pad(s)` is what <str as Display>::fmt does
         ctx.inst(R, b.path, ok, f"delegates to <str as {tr}>::fmt" if ok else
                  f"does not (only) delegate to <str as {tr}>::fmt (other calls: {other}): `format!(\"{{:>8}}\", s)` and friends differ from String",
                  where=b.where(), site=f"{tr} delegates to str")
